@@ -24,7 +24,7 @@ ASSUMPTIONS = ['membership of a character in \\p{..}, \\d, \\w, \\i, \\c is asse
                'search dialect: asserted are the boolean verdict (some substring is a member), the match start (leftmost) and that the reported '
                'match is a member; WHICH of several possible ends is reported is implementation-defined and only used for consistency checks']
 BUDGET = {"quick": 320, "thorough": 3200}
-WALLCAP = {'quick': 420, 'thorough': 2700}
+WALLCAP = {'quick': 500, 'thorough': 2700}
 if os.environ.get('C11_BUDGET'): BUDGET = {'quick': int(os.environ['C11_BUDGET']), 'thorough': int(os.environ['C11_BUDGET'])}     # development knob (sensitivity runs)
 
 EXCLUDE_FIRST_SUCCESS = os.environ.get('C11_NO_EXCLUDE', '') == ''      # set C11_NO_EXCLUDE=1 once the finding is fixed in the tree
@@ -38,6 +38,9 @@ F_ADDRANGE = 'C11-addrange-tail-overlap'
 F_SURR_OVERLAP = 'C11-overlap-surrogate'
 F_DOTSTAR = 'C11-dotstar-prefix-start'
 EXCLUDE_SURR_OVERLAP = os.environ.get('C11_NO_EXCLUDE_SURR', '') == ''
+EXCLUDE_HEAD_EMPTY = os.environ.get('C11_NO_EXCLUDE_HEADEMPTY', '') == ''
+EXCLUDE_HEAD_SURR = os.environ.get('C11_NO_EXCLUDE_HEADSURR', '') == ''
+EXCLUDE_FIXEDEND = os.environ.get('C11_NO_EXCLUDE_FIXEDEND', '') == ''
 EXCLUDE_ADDRANGE = os.environ.get('C11_NO_EXCLUDE_ADDRANGE', '') == ''
 F_HEAD_SURR = 'C11-headchar-surrogate'
 EXCLUDE_RECURSION = os.environ.get('C11_NO_EXCLUDE_RECURSION', '') == ''
@@ -57,6 +60,25 @@ def u16len(s): return len(s.encode('utf-16-le')) // 2
 # executor access
 # ------------------------------------------------------------------------------------------------------------------
 class Watchdog(Exception): pass
+
+# hard bound on the Python `re` witness (a backtracking engine without a step limit): (a) structural -- the witness is not asked about
+# a subject longer than RE_MAXLEN when the pattern lets a variable quantifier span more than one atom (counted re_skipped); (b) an
+# interval timer around every witness call as a backstop (sre polls for signals inside its match loop) -- counted re_timeout.
+# A subject without a witness answer is not asserted.
+import signal
+RE_MAXLEN = 12
+RE_SECONDS = 10
+class ReTimeout(Exception): pass
+def _on_alarm(signum, frame): raise ReTimeout()
+def bounded(fn, *args):
+    """-> fn(*args), or ReTimeout after RE_SECONDS"""
+    old = signal.signal(signal.SIGALRM, _on_alarm)
+    signal.setitimer(signal.ITIMER_REAL, RE_SECONDS)
+    try:
+        return fn(*args)
+    finally:
+        signal.setitimer(signal.ITIMER_REAL, 0)
+        signal.signal(signal.SIGALRM, old)
 
 def call(ex, kind, pattern, opts, subjects, mode='', wins=None, rep=None):
     req = {'kind': kind, 'pat': xv.esc(pattern), 'opts': opts, 'n': len(subjects), 'subj': '\n'.join(xv.esc(s) for s in subjects), 'mode': mode}
@@ -183,11 +205,18 @@ def check_pattern(c, ex, st_, tier):
     except (re.error, RecursionError, OverflowError):
         st_.extra['witness_unavailable'] = st_.extra.get('witness_unavailable', 0) + 1; return
     exp = []; asserted = []
+    risky = rm.is_risky(ast)
     for s in subjects:
         acc = lang.prefix_accepts(s)
         e = acc[-1]
-        try: w = wit.fullmatch(s) is not None
+        if risky and len(s) > RE_MAXLEN:
+            st_.extra['re_skipped'] = st_.extra.get('re_skipped', 0) + 1
+            exp.append(None); asserted.append(False); continue
+        try: w = bounded(wit.fullmatch, s) is not None
         except RecursionError: w = None
+        except ReTimeout:
+            st_.extra['re_timeout'] = st_.extra.get('re_timeout', 0) + 1
+            exp.append(None); asserted.append(False); continue
         if w is None or w != e:
             st_.oracle_disagreements += 1
             if len(st_.extra.setdefault('disagreement_samples', [])) < 3: st_.extra['disagreement_samples'].append({'pattern': text, 'subject': s, 'model': e, 're': w})
@@ -341,10 +370,15 @@ def check_search(c, ast, lang_schema, ex, st_, subjects, nshort):
     try: wit = re.compile(rm.to_python_re(ast, lang))
     except (re.error, RecursionError, OverflowError): return
     exp = []
+    risky = rm.is_risky(ast)
     for s in subset:
         f = lang.find_leftmost(s)
-        try: w = wit.search(s)
+        if risky and len(s) > RE_MAXLEN:
+            st_.extra['re_skipped'] = st_.extra.get('re_skipped', 0) + 1; exp.append('drop'); continue
+        try: w = bounded(wit.search, s)
         except RecursionError: w = False
+        except ReTimeout:
+            st_.extra['re_timeout'] = st_.extra.get('re_timeout', 0) + 1; exp.append('drop'); continue
         if w is False or (w is None) != (f is None) or (f is not None and w.start() != f[0]):
             st_.oracle_disagreements += 1; exp.append('drop'); continue
         exp.append(f)
@@ -353,7 +387,7 @@ def check_search(c, ast, lang_schema, ex, st_, subjects, nshort):
     res = {}
     baseo = sopts + 'H'
     variants = (baseo, sopts, sopts + 'F', 'H' + sopts + 'F')
-    if rm.has_class_subtraction(ast):
+    if EXCLUDE_HEAD_EMPTY and rm.has_class_subtraction(ast):
         # known finding: the head-character analysis reads out of bounds when an alternative starts with an EMPTY class (only
         # class subtraction can produce one): such patterns are compiled with option H only
         st_.excluded_known[F_HEAD_EMPTY] += 1
@@ -370,7 +404,7 @@ def check_search(c, ast, lang_schema, ex, st_, subjects, nshort):
         res[o] = v
     st_.extra['search_verdicts'] = st_.extra.get('search_verdicts', 0) + len(subset)
     base = res[baseo]
-    litonly = literal_only(ast)
+    litonly = EXCLUDE_FIXEDEND and literal_only(ast)
     hasdot = any(n[0] == 'dot' for n in rm.walk(ast))
     dotstar = (not dotall) and rm.starts_with_dot_closure(ast)
     for s, f, got in zip(subset, exp, base):
@@ -394,14 +428,14 @@ def check_search(c, ast, lang_schema, ex, st_, subjects, nshort):
             if 'H' not in o:
                 # known findings in the head-character optimisation (option H switches it off)
                 if hasdot: st_.excluded_known[F_HEAD_ANY] += 1; continue
-                if any(ord(ch) > 0xFFFF for ch in s): st_.excluded_known[F_HEAD_SURR] += 1; continue
+                if EXCLUDE_HEAD_SURR and any(ord(ch) > 0xFFFF for ch in s): st_.excluded_known[F_HEAD_SURR] += 1; continue
             if x.split('\t')[0] != y.split('\t')[0] or (x[0] == '1' and x.split('\t')[1].split(';')[0] != y.split('\t')[1].split(';')[0]):
                 raise PropertyFailure({'kind': 'equal', 'pattern': text, 'pos': True, 'a': {'opts': baseo, 'mode': 'rp', 'subjects': [s], 'wins': None, 'pick': 0},
                                        'b': {'opts': o, 'mode': 'rp', 'subjects': [s], 'wins': None, 'pick': 0}},
                                       'non-schema pattern %r subject %r: %r with opts %r but %r with opts %r' % (text, s, x, baseo, y, o))
     # tokenize / replace / allMatches consistency (pattern must not match the empty string: documented RuntimeException otherwise)
     nullable = lang.accepting(lang.start)
-    topts = sopts + 'H' if rm.has_class_subtraction(ast) else sopts       # finding C11-headchar-empty-class-oob: see above
+    topts = sopts + 'H' if (EXCLUDE_HEAD_EMPTY and rm.has_class_subtraction(ast)) else sopts       # finding C11-headchar-empty-class-oob: see above
     try:
         # allMatches() itself never terminates on a pattern that matches the empty string (tokenize/replace guard against it)
         hA, am = call(ex, 'allmatches', text, topts, subset) if not nullable else ('C\tOK', [''] * len(subset))
@@ -537,19 +571,18 @@ def _replay_tokrep(case, ex):
 # ------------------------------------------------------------------------------------------------------------------
 # known findings on the unchanged tree (ids to be entered in known_findings.json by the integrator): witnesses + classification
 # ------------------------------------------------------------------------------------------------------------------
-S1 = '\U00010000'
-KNOWN = [
-    (F_FIRST, {'kind': 'member', 'pattern': 'a*(ab)*', 'opts': 'X', 'mode': 'r', 'subject': 'ab', 'win': None, 'expected': True}),
-    (F_BACKREF, {'kind': 'malformed', 'pattern': 'a\\1', 'opts': 'X', 'rule': 'backref-escape'}),
-    (F_FIXEDEND, {'kind': 'search', 'pattern': '\\.', 'opts': 'H', 'subject': '..', 'expected': [0, [1]]}),
-    (F_RECURSION, {'kind': 'crash', 'req': 'regex', 'pattern': '(a{0,1})*b', 'opts': 'X', 'subjects': ['a'], 'mode': 'r', 'wins': None, 'rep': None}),
-    (F_HEAD_ANY, {'kind': 'search', 'pattern': '.{1,2}b', 'opts': '', 'subject': 'ab', 'expected': [0, [2]]}),
-    (F_HEAD_SURR, {'kind': 'search', 'pattern': '[' + S1 + 'a]', 'opts': '', 'subject': S1, 'expected': [0, [1]]}),
-    (F_HEAD_EMPTY, {'kind': 'crash', 'req': 'regex', 'pattern': '[a-c-[a-z]]|a', 'opts': '', 'subjects': ['a'], 'mode': 'r', 'wins': None, 'rep': None}),
-    (F_ADDRANGE, {'kind': 'member', 'pattern': '[a-cb-e]', 'opts': 'X', 'mode': 'r', 'subject': 'd', 'win': None, 'expected': True}),
-    (F_SURR_OVERLAP, {'kind': 'member', 'pattern': S1 + S1 + '*' + S1 + S1, 'opts': 'X', 'mode': 'r', 'subject': S1 * 3, 'win': None, 'expected': True}),
-    (F_DOTSTAR, {'kind': 'search', 'pattern': '.*[\n]', 'opts': 'H', 'subject': '\nx', 'expected': [0, [1]]}),
-]
+import json
+KNOWN_DIR = os.path.join(os.path.dirname(os.path.dirname(os.path.dirname(os.path.abspath(__file__)))), 'regress-known', 'C11')
+def _load_known():
+    out = []
+    try: names = sorted(os.listdir(KNOWN_DIR))
+    except OSError: names = []
+    for n in names:
+        if n.endswith('.json'):
+            obj = json.load(open(os.path.join(KNOWN_DIR, n), encoding='utf-8'))
+            out.append((n[:-5], obj.get('case', obj)))
+    return out
+KNOWN = _load_known()
 def known_witnesses(): return list(KNOWN)
 def classify(case, detail):
     for kid, w in KNOWN:
